@@ -1,6 +1,330 @@
+//! E4-threads — generated multi-thread programs on one cache, real scheduling (no delay points).
+//! Only facts that are certain under any interleaving are asserted:
+//!  * C11 register check with real-time order: a read must not return a write that was overwritten /
+//!    removed by an operation that completed before the read started (global logical timestamps);
+//!    compute atomicity (N x M increments all arrive); or_insert inserts at most once.
+//!  * C13 at quiescence (all threads joined): capacity respected after maintenance, current_cost ==
+//!    sum of resident costs (counter drift under racing insert / remove / clear / maintenance).
+//!  * C16 at quiescence: no (key, write) notified twice, every notified value was written, a value
+//!    removed by a user `remove` is notified Invalidated exactly once and never also Capacity/Expired.
+//! Replays are statistical (the replay command repeats the program 200 times).
+
+use crate::env::*;
+use proptest::prelude::*;
 use serde::{Deserialize, Serialize};
+use std::collections::{BTreeMap, BTreeSet};
+use std::sync::atomic::{AtomicU64, Ordering};
+use std::sync::{Arc, Barrier, Mutex};
+use std::time::Duration;
 use vcore::{CaseReport, Check, Failure};
+
+const COUNTER_KEY: u32 = 100;
+const ORI_BASE: u32 = 200;
+
 #[derive(Clone, Debug, Serialize, Deserialize)]
-pub struct Scenario {}
-pub fn execute(_s: &Scenario) -> Result<CaseReport, Failure> { Ok(CaseReport::new()) }
-pub fn check(_c: &mut Check) {}
+pub enum COp {
+  Insert { k: u8, c: u8 },
+  Remove { k: u8 },
+  Get { k: u8 },
+  Fetch { k: u8 },
+  Compute,
+  OrInsert { slot: u8 },
+  MultiInsert { ks: Vec<u8> },
+  Clear,
+  Maint,
+}
+
+#[derive(Clone, Debug, Serialize, Deserialize)]
+pub struct Scenario {
+  pub pol: Pol,
+  pub shards: usize,
+  pub capacity: Option<u64>,
+  pub collide: bool,
+  pub maint_always: bool,
+  pub listener: bool,
+  pub threads: Vec<Vec<COp>>,
+}
+
+fn cop() -> impl Strategy<Value = COp> {
+  prop_oneof![
+    8 => (0u8..8, 0u8..4).prop_map(|(k, c)| COp::Insert { k, c }),
+    5 => (0u8..8).prop_map(|k| COp::Remove { k }),
+    4 => (0u8..8).prop_map(|k| COp::Get { k }),
+    3 => (0u8..8).prop_map(|k| COp::Fetch { k }),
+    5 => Just(COp::Compute),
+    3 => (0u8..4).prop_map(|slot| COp::OrInsert { slot }),
+    1 => proptest::collection::vec(0u8..8, 1..5).prop_map(|ks| COp::MultiInsert { ks }),
+    3 => Just(COp::Maint),
+  ]
+}
+
+pub fn scenario_strategy() -> impl Strategy<Value = Scenario> {
+  let pol = prop_oneof![3 => Just(Pol::Default), 8 => (0u16..u16::MAX).prop_map(|i| Pol::Custom(crate::policy::ALL_KINDS[vcore::idx(i, 8)]))];
+  (pol, prop_oneof![Just(1usize), Just(2), Just(8)], prop_oneof![2 => Just(None), 3 => Just(Some(5u64)), 2 => Just(Some(50u64))], any::<bool>(), any::<bool>(), any::<bool>(), any::<bool>())
+    .prop_flat_map(|(pol, shards, capacity, collide, maint_always, listener, allow_clear)| {
+      let ops = if allow_clear {
+        prop_oneof![20 => cop(), 1 => Just(COp::Clear)].boxed()
+      } else {
+        cop().boxed()
+      };
+      proptest::collection::vec(proptest::collection::vec(ops, 5..40), 2..6).prop_map(move |threads| Scenario { pol, shards, capacity, collide, maint_always, listener, threads })
+    })
+}
+
+#[derive(Clone, Debug)]
+enum Ev {
+  Write { key: u32, wid: u64, start: u64, end: u64 },
+  /// remove/clear: `took` = the write id a remove returned
+  Kill { key: Option<u32>, took: Option<u64>, start: u64, end: u64 },
+  Read { key: u32, got: Option<Val>, start: u64 },
+  ComputeOk,
+  OrInsert { key: u32, mine: u64, got: Val },
+}
+
+fn fail(p: &str, api: &str, clause: &str, msg: String) -> Failure {
+  Failure::new(p, format!("E4/cache/{api}/{clause}"), msg)
+}
+
+pub fn execute(s: &Scenario) -> Result<CaseReport, Failure> {
+  let clock = case_clock();
+  let next_wid = Arc::new(AtomicU64::new(1));
+  let tick = Arc::new(AtomicU64::new(1));
+  let costs: Arc<Mutex<BTreeMap<u64, u64>>> = Default::default();
+  let mut b: TBuilder = TBuilder::new().hasher(FixedState { collide: s.collide }).shards(s.shards).janitor_tick_interval(Duration::from_millis(if s.maint_always { 2 } else { 50 })).maintenance_chance(if s.maint_always { 1 } else { 1 << 31 });
+  b = match s.capacity {
+    Some(c) => b.capacity(c),
+    None => b.unbounded(),
+  };
+  b = apply_policy(b, s.pol, s.capacity, s.shards);
+  let rec = if s.listener {
+    let r = Arc::new(Recorder::default());
+    b = b.eviction_listener(RecListener(r.clone()));
+    Some(r)
+  } else {
+    None
+  };
+  let cache = b.build().expect("cache builds");
+  let has_clear = s.threads.iter().flatten().any(|o| matches!(o, COp::Clear));
+  let counter_mode = s.capacity.is_none() && !has_clear && !matches!(s.pol, Pol::Custom(crate::policy::Kind::TinyLfu) | Pol::Custom(crate::policy::Kind::Arc));
+  // the counter entry (cost 0) for the compute-atomicity clause
+  let cw = next_wid.fetch_add(1, Ordering::SeqCst);
+  costs.lock().unwrap().insert(cw, 0);
+  cache.insert(COUNTER_KEY, Val { key: COUNTER_KEY, wid: cw, n: 0 }, 0);
+  let barrier = Arc::new(Barrier::new(s.threads.len()));
+  let mut handles = Vec::new();
+  for prog in s.threads.iter().cloned() {
+    let (c, clock, next_wid, tick, costs, barrier) = (cache.clone(), clock.clone(), next_wid.clone(), tick.clone(), costs.clone(), barrier.clone());
+    handles.push(std::thread::spawn(move || {
+      fibre_cache::verif::install(Some(clock));
+      let mut evs: Vec<Ev> = Vec::new();
+      let t = || tick.fetch_add(1, Ordering::SeqCst);
+      let cost_of = |c: u8| [0u64, 1, 2, 5][c as usize % 4];
+      barrier.wait();
+      for op in prog {
+        match op {
+          COp::Insert { k, c: ci } => {
+            let wid = next_wid.fetch_add(1, Ordering::SeqCst);
+            costs.lock().unwrap().insert(wid, cost_of(ci));
+            let start = t();
+            c.insert(k as u32, Val { key: k as u32, wid, n: 0 }, cost_of(ci));
+            evs.push(Ev::Write { key: k as u32, wid, start, end: t() });
+          }
+          COp::MultiInsert { ks } => {
+            let mut items = Vec::new();
+            let mut ws = Vec::new();
+            let uniq: BTreeSet<u8> = ks.iter().copied().collect();
+            for k in uniq {
+              let wid = next_wid.fetch_add(1, Ordering::SeqCst);
+              costs.lock().unwrap().insert(wid, 1);
+              items.push((k as u32, Val { key: k as u32, wid, n: 0 }, 1u64));
+              ws.push((k as u32, wid));
+            }
+            let start = t();
+            c.multi_insert(items);
+            let end = t();
+            for (key, wid) in ws {
+              evs.push(Ev::Write { key, wid, start, end });
+            }
+          }
+          COp::Remove { k } => {
+            let start = t();
+            let r = c.remove(&(k as u32));
+            evs.push(Ev::Kill { key: Some(k as u32), took: r.map(|v| v.wid), start, end: t() });
+          }
+          COp::Clear => {
+            let start = t();
+            c.clear();
+            evs.push(Ev::Kill { key: None, took: None, start, end: t() });
+          }
+          COp::Get { k } => {
+            let start = t();
+            let got = c.get(&(k as u32), |v| v.clone());
+            evs.push(Ev::Read { key: k as u32, got, start });
+          }
+          COp::Fetch { k } => {
+            let start = t();
+            let got = c.fetch(&(k as u32)).map(|v| (*v).clone());
+            evs.push(Ev::Read { key: k as u32, got, start });
+          }
+          COp::Compute => {
+            if c.compute(&COUNTER_KEY, |v| v.n += 1) {
+              evs.push(Ev::ComputeOk);
+            }
+          }
+          COp::OrInsert { slot } => {
+            let key = ORI_BASE + slot as u32;
+            let wid = next_wid.fetch_add(1, Ordering::SeqCst);
+            costs.lock().unwrap().insert(wid, 0);
+            let got = c.entry(key).or_insert(Val { key, wid, n: 0 }, 0);
+            evs.push(Ev::OrInsert { key, mine: wid, got: (*got).clone() });
+          }
+          COp::Maint => c.run_maintenance(),
+        }
+      }
+      evs
+    }));
+  }
+  let mut all: Vec<Ev> = Vec::new();
+  for h in handles {
+    match h.join() {
+      Ok(e) => all.extend(e),
+      Err(p) => {
+        let m = crate::panic_msg(&p);
+        std::mem::forget(cache);
+        return Err(Failure::new(&crate::current_property(), format!("E4/cache/panic/{}", crate::panic_site(&m)), format!("a cache operation panicked: {m}")));
+      }
+    }
+  }
+  let mut rep = CaseReport::new();
+  rep.class(format!("threads:{}", s.threads.len()));
+  // ---- C11 register check --------------------------------------------------------------------
+  let mut writes: BTreeMap<u64, (u32, u64, u64)> = BTreeMap::new();
+  let mut by_key: BTreeMap<u32, Vec<(u64, u64, u64)>> = BTreeMap::new(); // key -> (wid, start, end)
+  let mut kills: Vec<(Option<u32>, u64, u64)> = Vec::new();
+  let mut users_of_key: BTreeMap<u32, u32> = BTreeMap::new();
+  for e in &all {
+    match e {
+      Ev::Write { key, wid, start, end } => {
+        writes.insert(*wid, (*key, *start, *end));
+        by_key.entry(*key).or_default().push((*wid, *start, *end));
+        *users_of_key.entry(*key).or_default() += 1;
+      }
+      Ev::Kill { key, start, end, .. } => kills.push((*key, *start, *end)),
+      _ => {}
+    }
+  }
+  for e in &all {
+    if let Ev::Read { key, got: Some(v), start } = e {
+      // C11: "it never returns another key's value"
+      let w = match writes.get(&v.wid) {
+        Some(w) if w.0 == *key && v.key == *key => *w,
+        _ => return Err(fail("C11", "read", "returned_unknown_or_foreign_value", format!("read of key {key} returned {v:?}"))),
+      };
+      // C11: "an overwritten value after the overwrite completed": W -> W2 -> R in real-time order
+      if let Some(w2) = by_key[key].iter().find(|w2| w2.0 != v.wid && w2.1 > w.2 && w2.2 < *start) {
+        return Err(fail("C11", "read", "returned_overwritten_value", format!("key {key}: read started at t={start} returned write {} (completed t={}), but write {} ran entirely in between (t={}..{})", v.wid, w.2, w2.0, w2.1, w2.2)));
+      }
+      // C11: "or a removed value (no resurrection)"
+      if let Some(k) = kills.iter().find(|k| (k.0.is_none() || k.0 == Some(*key)) && k.1 > w.2 && k.2 < *start) {
+        return Err(fail("C11", "read", "returned_removed_value", format!("key {key}: read started at t={start} returned write {} (completed t={}), but a remove/clear ran entirely in between (t={}..{})", v.wid, w.2, k.1, k.2)));
+      }
+    }
+  }
+  if users_of_key.values().any(|n| *n >= 2) {
+    rep.class("shared_key");
+  }
+  // C11: "concurrent read-modify-writes are never lost"
+  let computes = all.iter().filter(|e| matches!(e, Ev::ComputeOk)).count() as u64;
+  if counter_mode {
+    match cache.peek(&COUNTER_KEY) {
+      Some(v) if v.n == computes => {}
+      other => return Err(fail("C11", "compute", "lost_update", format!("{computes} compute(+1) calls returned true on a key nobody removes, final value {other:?}"))),
+    }
+    if computes > 0 {
+      rep.class("counter_checked");
+    }
+  }
+  // C11: "or_insert inserts at most once": on keys nobody removes, every caller sees one write
+  if counter_mode {
+    let mut seen: BTreeMap<u32, BTreeSet<u64>> = BTreeMap::new();
+    for e in &all {
+      if let Ev::OrInsert { key, got, .. } = e {
+        seen.entry(*key).or_default().insert(got.wid);
+      }
+    }
+    if let Some((k, ws)) = seen.iter().find(|(_, ws)| ws.len() > 1) {
+      return Err(fail("C11", "entry", "or_insert_inserted_twice", format!("callers of entry({k}).or_insert saw different values {ws:?} although the key was never removed")));
+    }
+    if !seen.is_empty() {
+      rep.class("or_insert_checked");
+    }
+  }
+  // ---- C13 at quiescence ---------------------------------------------------------------------
+  let costs = costs.lock().unwrap().clone();
+  let cost_of = |v: &Val| costs.get(&v.wid).copied();
+  let mut purge = |_: &TCache| {};
+  let api = format!("quiesce/{}", s.pol.name());
+  match quiesce_check(&cache, s.capacity, &cost_of, &mut purge) {
+    Ok(_) => {}
+    Err(QuiesceErr::Inconclusive(_)) => rep.inconclusive += 1,
+    Err(QuiesceErr::Violation(clause, msg)) => return Err(fail("C13", &api, clause, msg)),
+  }
+  // ---- C16 at quiescence ---------------------------------------------------------------------
+  if let Some(rec) = &rec {
+    if flush_listener(&cache, rec, &next_wid) {
+      let log = rec.log.lock().unwrap().clone();
+      let mut seen: BTreeMap<u64, Reason> = BTreeMap::new();
+      let taken: BTreeSet<u64> = all.iter().filter_map(|e| if let Ev::Kill { took: Some(w), .. } = e { Some(*w) } else { None }).collect();
+      for n in log.iter().filter(|n| n.key != SENTINEL_KEY) {
+        // C16: "that key was resident with that value"
+        if !costs.contains_key(&n.val.wid) || n.val.key != n.key {
+          return Err(fail("C16", "listener", "unknown_value", format!("notification {n:?} carries a value nobody wrote under that key")));
+        }
+        // C16: "no removal is notified twice" (user remove racing janitor eviction of the same entry)
+        if let Some(prev) = seen.insert(n.val.wid, n.reason) {
+          return Err(fail("C16", "listener", "notified_twice", format!("key {} write {} notified twice ({prev:?}, then {:?})", n.key, n.val.wid, n.reason)));
+        }
+        // C16: "the reason matches the cause"
+        match n.reason {
+          Reason::Invalidated if !taken.contains(&n.val.wid) => return Err(fail("C16", "listener", "invalidated_without_remove", format!("key {} write {} notified Invalidated but no remove() returned it", n.key, n.val.wid))),
+          Reason::Capacity | Reason::Expired if taken.contains(&n.val.wid) => return Err(fail("C16", "listener", "wrong_reason_for_user_remove", format!("key {} write {} was returned by a user remove() but notified {:?}", n.key, n.val.wid, n.reason))),
+          Reason::Expired => return Err(fail("C16", "listener", "expired_reason_for_unexpired", format!("key {} write {} notified Expired in a cache without TTL/TTI", n.key, n.val.wid))),
+          _ => {}
+        }
+      }
+      // C16 completeness for user removes, decidable only when the queue (128) cannot have overflowed
+      if log.len() < 100 {
+        if let Some(w) = taken.iter().find(|w| !seen.contains_key(w)) {
+          return Err(fail("C16", "listener", "missing_invalidated_notification", format!("remove() returned write {w} but the drained listener never heard of it ({} notifications in total)", log.len())));
+        }
+      }
+      if !taken.is_empty() && seen.values().any(|r| *r == Reason::Capacity) {
+        rep.class("remove_and_capacity_notifications");
+      }
+    } else {
+      rep.inconclusive += 1;
+    }
+  }
+  // NT (E4): ">= 2 threads touched the same key" (and for C13/C16 the program mixed writers with
+  // removers / clear / maintenance, which every generated program with >= 2 threads on 8 keys does)
+  rep.nontrivial = users_of_key.values().any(|n| *n >= 2);
+  Ok(rep)
+}
+
+pub fn check(check: &mut Check) {
+  let ctx = check.ctx.clone();
+  let n = ctx.tier.pick(1500u64, 150_000u64);
+  let n = std::env::var("VERIF_CONC_CASES").ok().and_then(|s| s.parse().ok()).unwrap_or(n); // development aid
+  let out = vcore::drive(&ctx, &check.findings, 5, n, scenario_strategy, |s| {
+    let r = execute(s);
+    // development aid (never set by vf): dump failing programs, they are statistical
+    if let (Err(f), Ok(dir)) = (&r, std::env::var("VERIF_CONC_DUMP")) {
+      let rp = vcore::Replay { property: f.property.clone(), engine: crate::ENGINE_CONC.into(), signature: f.signature.clone(), message: f.message.clone(), seed: 0, scenario: serde_json::to_value(s).unwrap() };
+      let _ = std::fs::create_dir_all(&dir);
+      let _ = std::fs::write(format!("{dir}/{:08x}.json", vcore::hash_str(&serde_json::to_string(s).unwrap()) as u32), serde_json::to_string(&rp).unwrap());
+    }
+    r
+  });
+  check.absorb(crate::ENGINE_CONC, out);
+  check.require_class("shared_key", 500);
+}
